@@ -52,6 +52,25 @@ def run(tier, seed):
         progs.append(p)
         for k, v in st.items():
             stats[k] = stats.get(k, 0) + v
+    # exact arity, systematically: closures and macros with 0..3 parameters (with and without a rest parameter),
+    # called directly, through a variable and as a returned closure, with 0..4 arguments
+    arity = []
+    for np_ in range(0, 4):
+        params = ["a", "b", "c"][:np_]
+        for restp in (False, True):
+            plist = " ".join(params + (["&", "r"] if restp else []))
+            body = "(list " + " ".join(params + (["r"] if restp else [])) + ")" if (params or restp) else "'none"
+            for na in range(0, 5):
+                args = " ".join(str(k + 1) for k in range(na))
+                ok = (na >= np_) if restp else (na == np_)
+                for kind in ("lambda", "macro"):
+                    fn = f"({kind} ({plist}) {body})"
+                    forms = [f"({fn} {args})".replace(" )", ")")]
+                    if kind == "lambda":
+                        forms += [f"((lambda (f) (f {args})) {fn})".replace(" )", ")"), f"(((lambda (x) {fn}) 0) {args})".replace(" )", ")")]
+                    for form in forms:
+                        arity.append((form, ok))
+    progs += [f for f, _ in arity]
     sets = [ProgramSet("core", progs, env="", shard_size=80)]
     run_sets(rep, sets)
     crashes_and_hangs(rep, sets)
@@ -60,6 +79,20 @@ def run(tier, seed):
         ps = sets[0]
         for b in sorted(ps.bad, key=lambda i: len(progs[i]))[:3]:
             rep.violation("the implementation differs from the reference evaluator on " + progs[b], {"program": progs[b], "env": "", "implementation": ps.answers[b][:500], "reference": evalcorr.model_outcome(progs[b], env="")[:1500]})
+    # the arity matrix against the property itself: too few or too many arguments signal wrong-number-of-arguments, the right number does not
+    ps = sets[0]
+    base = len(progs) - len(arity)
+    wrong_arity = 0
+    for j, (form, ok) in enumerate(arity):
+        r = ps.parsed[base + j]
+        st, d = last_result(r)
+        is_arity_signal = st == "sig" and "119.114.111.110.103.45.110.117.109.98.101.114.45.111.102.45.97.114.103.117.109.101.110.116.115" in (d or "")
+        if (ok and is_arity_signal) or (not ok and not is_arity_signal):
+            wrong_arity += 1
+            if wrong_arity <= 3:
+                rep.violation(f"{form}: {'a call with the right number of arguments signals wrong-number-of-arguments' if ok else 'a call with the wrong number of arguments does not signal wrong-number-of-arguments'}",
+                              {"program": form, "env": "", "observed": ps.answers[base + j][:300]})
+    rep.coverage["arity_matrix"] = len(arity)
     rep.nontrivial = len(set(p for p in progs if "(lambda" in p))
     rep.samples = progs[len(FIXED):len(FIXED) + 3]
     rep.coverage.update({"outcomes": outcome_kinds(sets), "construct_counts": stats, "exhaustive": False})
